@@ -311,6 +311,11 @@ func ruleOptDeref(c *Ctx) {
 				}
 				nonNil := nonNilD(0)
 				g := p.guardedBy(in, nonNil)
+				if g == nil && !p.onReferenceTree(TopLevel(fn)) && p.guardedUp(in, nonNil, 0) {
+					// the dereference moved into a helper (setReference(vo)) that every caller calls under the test
+					c.ok(fnName(fn), "optional decoded pointer "+q+" dereferenced only under its nil test", p.InstrPos(in), "every call of the helper is dominated by a non-nil test")
+					return
+				}
 				c.check(g != nil, fnName(fn), "optional decoded pointer "+q+" dereferenced only under its nil test", p.InstrPos(in), "dominated by a non-nil test (or a predicate implying it)", "nil pointer dereference on a message that omits the field")
 			})
 		}
@@ -349,6 +354,73 @@ func ruleOptDeref(c *Ctx) {
 					}
 				}
 			})
+		}
+		if !ok && dec != nil {
+			// the test moved into a predicate helper (`hasNullEvent(events)`): the helper tests an element of
+			// its slice parameter against nil, it is handed result.events, and its result guards an error return
+			for _, call := range callsIn(dec) {
+				sf := call.Common().StaticCallee()
+				if sf == nil || !p.isRepoFn(sf) || p.onReferenceTree(sf) || len(sf.Params) == 0 {
+					continue
+				}
+				handed := false
+				for _, a := range callArgs(call.Common()) {
+					if f, _ := fieldLoad(stripConv(a)); f == fEvents {
+						handed = true
+					}
+				}
+				if !handed {
+					continue
+				}
+				tests := false
+				allInstrs(sf, func(in ssa.Instruction) {
+					i, isIf := in.(*ssa.If)
+					if !isIf {
+						return
+					}
+					for _, d := range []bool{true, false} {
+						if x, _, isN := nilTest(i, d); isN {
+							if u, isU := x.(*ssa.UnOp); isU {
+								if ia, isIA := u.X.(*ssa.IndexAddr); isIA {
+									if _, isP := ia.X.(*ssa.Parameter); isP {
+										tests = true
+									}
+								}
+							}
+						}
+					}
+				})
+				if !tests {
+					continue
+				}
+				cv, isV := call.(ssa.Value)
+				if !isV || cv.Referrers() == nil {
+					continue
+				}
+				for _, r := range *cv.Referrers() {
+					var iff *ssa.If
+					switch y := r.(type) {
+					case *ssa.If:
+						iff = y
+					case *ssa.UnOp:
+						for _, r2 := range *y.Referrers() {
+							if i2, isI := r2.(*ssa.If); isI {
+								iff = i2
+							}
+						}
+					}
+					if iff == nil {
+						continue
+					}
+					for _, succ := range iff.Block().Succs {
+						if len(succ.Instrs) > 0 {
+							if rr, isR := succ.Instrs[len(succ.Instrs)-1].(*ssa.Return); isR && len(rr.Results) > 0 && !isNilConst(rr.Results[len(rr.Results)-1]) {
+								ok = true
+							}
+						}
+					}
+				}
+			}
 		}
 		c.check(ok, "(*rescache.EventSubscription).handleQueryEvent$1$1", "decoded pointer elements are nil-checked", "-", "DecodeEventQueryResponse rejects null elements of result.events", "a null element of a query response's events array is dereferenced by the cache worker")
 	}
